@@ -1,6 +1,7 @@
 package main
 
 import (
+	"os"
 	"fmt"
 	"go/token"
 	"go/types"
@@ -177,7 +178,7 @@ func (fg *FuncGen) instr(in ssa.Instruction) {
 		fg.typeAssert(v)
 	case *ssa.Defer, *ssa.Go, *ssa.Select, *ssa.Send:
 		fg.unsupp("instruction %T outside subset G0", in)
-		fg.obl("g0", "", in.Pos(), []string{"C07"}, "false", fmt.Sprintf("%T is outside the verified subset", in))
+		fg.obl("g0", "", in.Pos(), []string{"C07", "C15"}, "false", fmt.Sprintf("%T is outside the verified subset (concurrency, a source of nondeterminism)", in))
 	default:
 		fg.unsupp("instruction %T", in)
 		if val, ok := in.(ssa.Value); ok {
@@ -212,7 +213,7 @@ func (fg *FuncGen) frameCheck(p *Ptr, pos token.Pos, what string) {
 		if fg.fn.Name() == "init" {
 			return
 		}
-		fg.obl("frame", "", pos, []string{"C06", "C07"}, "false", what+" to package-level variable")
+		fg.obl("frame", "", pos, []string{"C06", "C07", "C15"}, "false", what+" to package-level variable")
 		return
 	}
 	if strings.HasPrefix(root, "ref_") {
@@ -715,6 +716,9 @@ func (fg *FuncGen) makeInterface(v *ssa.MakeInterface) {
 	g := fg.g
 	x := fg.valueOf(v.X)
 	xt := v.X.Type()
+	if os.Getenv("GOVC_LIST_BOX") != "" && g.SortOf(v.Type()) == "Val" {
+		fmt.Fprintf(os.Stderr, "BOX %s %s %s\n", shortKey(fg.key), xt.String(), g.pos(v.Pos()))
+	}
 	if g.SortOf(v.Type()) == "Val" {
 		if c := g.valCtor(xt, x.S); c != "" {
 			if strings.HasPrefix(c, "(VStr ") {
